@@ -196,7 +196,7 @@ pub fn xml_jobs(ctx: &Ctx, prop: Prop, stats: &Stats) -> u64 {
     use crate::xmlh::*;
     let lex = crate::c15::xml_lexemes();
     let mut lex2: Vec<&str> = lex.clone();
-    for extra in ["<a>", "</a>", "<a/>", "</>", "<p:a xmlns:p='u'>", "<script/>", "</script>", "<?pi d?>", "<!--c-->", "<!DOCTYPE a>", "<![CDATA[x]]>", " b='c'"] {
+    for extra in ["<a>", "</a>", "<a/>", "</>", "<p:a xmlns:p='u'>", "<script/>", "</script>", "<?pi d?>", "<!--c-->", "<!DOCTYPE a>", "<![CDATA[x]]>", " b='c'", "</script", "<script", "</script b='c'", "&zz9;", "&zz9", "&#x;", "&#;", "&amp"] {
         lex2.push(extra);
     }
     let k = ctx.tier.pick(3, 4);
@@ -209,10 +209,25 @@ pub fn xml_jobs(ctx: &Ctx, prop: Prop, stats: &Stats) -> u64 {
             let parts: Vec<&str> = cur.iter().map(|&i| lex2[i]).collect();
             for one_chunk in [false, true] {
                 let sched: Vec<Feed> = if one_chunk { vec![Feed::Chunk(parts.concat())] } else { parts.iter().map(|s| Feed::Chunk(s.to_string())).collect() };
-                let cfg = XmlCfg::default();
+              for exact in [false, true] {
+                let cfg = XmlCfg { exact_errors: exact, ..Default::default() };
                 count.fetch_add(1, Ordering::Relaxed);
                 stats.execs.fetch_add(1, Ordering::Relaxed);
                 let w = || crate::c15::witness(&cfg, &sched);
+                if prop == Prop::C04 && !exact {
+                    // the same schedule with a token sink that suspends on </script>, as the tree builder does
+                    let pcfg = XmlCfg { script_pause: true, ..Default::default() };
+                    match guarded(|| run_xml_tokens(&pcfg, &sched, true, false)) {
+                        Err(p) => {
+                            ctx.violation("panic", &format!("{} script-pause", crate::c15::witness(&pcfg, &sched)), json!({"panic": p, "job": "xml"}));
+                        },
+                        Ok(t) => {
+                            if let Some(p) = t.problems.first() {
+                                ctx.violation("totality", &format!("{} script-pause", crate::c15::witness(&pcfg, &sched)), json!({"message": p, "job": "xml"}));
+                            }
+                        },
+                    }
+                }
                 match guarded(|| (run_xml_tokens(&cfg, &sched, true, false), run_xml_tree(&cfg, &sched, true))) {
                     Err(p) => {
                         if prop == Prop::C04 {
@@ -232,6 +247,7 @@ pub fn xml_jobs(ctx: &Ctx, prop: Prop, stats: &Stats) -> u64 {
                         }
                     },
                 }
+              }
             }
             if cur.len() < k {
                 for i in 0..n {
